@@ -9,7 +9,7 @@ let () =
         let toks = Array.of_list (split_ws line) in
         let pos = ref 0 in
         let next () = let t = toks.(!pos) in incr pos; t in
-        let kind = (match int_of_string (next ()) with 11 | 12 -> 1 | 41 -> 4 | k -> k) |> z_of_int in
+        let kind = (match int_of_string (next ()) with 11 | 12 | 13 | 14 | 15 | 16 -> 1 | 17 -> 2 | 41 -> 4 | 42 | 43 -> (-1) | k -> k) |> z_of_int in
         let n = int_of_string (next ()) in
         let ents = List.init n (fun _ ->
           let b = z_of_string (next ()) in
@@ -19,6 +19,7 @@ let () =
         let qs = List.init m (fun _ -> z_of_string (next ())) in
         let o = run_case kind ents qs in
         let b = Buffer.create 256 in
+        if kind = z_of_int (-1) then Buffer.add_string b "?" else
         if o_panic o then Buffer.add_string b "P;;"
         else begin
           Buffer.add_string b "OK;";
